@@ -254,6 +254,7 @@ type Ctx struct {
 	inlineCache map[string]Val
 	inContract int
 	sorts map[string]string
+	predImplicit map[string][]string
 }
 
 type structInfo struct {
@@ -266,7 +267,7 @@ type structInfo struct {
 
 func newCtx(g *Global) *Ctx {
 	c := &Ctx{g: g, declared: map[string]bool{}, accIndex: map[string]accInfo{}, structs: map[string]*structInfo{},
-		heapSorts: map[string]bool{}, litStr: map[string]string{}, cntDefs: map[string]string{}, trusted: map[string]bool{}, unspecified: map[string]bool{}, notes: map[string]bool{}, defs: map[string]string{}, inlineCache: map[string]Val{}, sorts: map[string]string{}}
+		heapSorts: map[string]bool{}, litStr: map[string]string{}, cntDefs: map[string]string{}, trusted: map[string]bool{}, unspecified: map[string]bool{}, notes: map[string]bool{}, defs: map[string]string{}, inlineCache: map[string]Val{}, sorts: map[string]string{}, predImplicit: map[string][]string{}}
 	c.accIndex["s.ref"] = accInfo{"mkSlice", 0, 4}
 	c.accIndex["s.off"] = accInfo{"mkSlice", 1, 4}
 	c.accIndex["s.len"] = accInfo{"mkSlice", 2, 4}
@@ -347,6 +348,9 @@ func isByte(t types.Type) bool {
 	return ok && (b.Kind() == types.Uint8)
 }
 func isInt(t types.Type) bool {
+	if _, ok := t.(*types.TypeParam); ok {
+		return true // generic helpers (gmin/gmax) are only instantiated at int in this code base: verified at that instance
+	}
 	b, ok := t.Underlying().(*types.Basic)
 	return ok && b.Info()&types.IsInteger != 0 && b.Kind() != types.Uint8
 }
@@ -369,6 +373,9 @@ func isError(t types.Type) bool {
 func (c *Ctx) sortOf(t types.Type) string {
 	if t == nil {
 		panic(unsupported("sort of nil type"))
+	}
+	if _, ok := t.(*types.TypeParam); ok {
+		return "Int"
 	}
 	switch u := t.Underlying().(type) {
 	case *types.Basic:
@@ -513,6 +520,9 @@ func (c *Ctx) heapName(elemSort string) string {
 
 // zero value term of a Go type
 func (c *Ctx) zero(t types.Type) string {
+	if _, ok := t.(*types.TypeParam); ok {
+		return "0"
+	}
 	switch u := t.Underlying().(type) {
 	case *types.Basic:
 		switch {
